@@ -3,7 +3,9 @@
    set (computed with the ideal descent rule: descend only through nodes with equal data; or with
    the as-built rule when the deviation is enabled) in EVERY order and check at the end
      ideal    : Reproduces /\ EmptyOnEqual
-     as built : cur = AsBuiltResult(src, tgt)    (validates the deviation's description)        *)
+     as built : cur = AsBuiltResult(src, tgt) resp. AsBuiltResultB(src, tgt)   (validates the deviations' descriptions)
+   The universe's labels are <<payload id, CID builder id>>: pairs of trees that differ ONLY in the CID builder
+   of a node (leaf, empty or populated directory, root) are part of it when Builders has two elements.        *)
 EXTENDS DagDiff, DagUniverse
 CONSTANTS AllPairs
 VARIABLE pend
@@ -12,7 +14,9 @@ mvars == <<vars, pend>>
 Pairs == IF AllPairs THEN Sources \X DirTrees
          ELSE UNION {{<<a, b>> : b \in Edits(a) \cup {a}} : a \in Sources}
 
-Desc(q) == IF "Dev_C14_DataIgnored" \in Devs THEN DescAsBuilt(src', tgt', q) ELSE DescIdeal(src', tgt', q)
+Desc(q) == IF "Dev_C14_DataIgnored" \in Devs THEN DescAsBuilt(src', tgt', q)
+           ELSE IF "Dev_C14_CidBuilderIgnored" \in Devs THEN DescAsBuiltB(src', tgt', q)
+           ELSE DescIdeal(src', tgt', q)
 MInit == Init /\ pend = {}
 MStart == \E pr \in Pairs : Start(pr[1], pr[2]) /\ pend' = RefChanges(pr[1], pr[2], Desc)
 MChange == \E c \in pend : Change(c) /\ pend' = pend \ {c}
@@ -22,7 +26,7 @@ MSpec == MInit /\ [][MNext]_mvars
 Done == phase = "diff" /\ pend = {}
 \* ... and a change at the empty path is part of the reference set exactly when the roots' own data differ
 IdealOK   == Done => Reproduces /\ EmptyOnEqual /\ (rootch <=> src[<<>>] # tgt[<<>>])
-AsBuiltOK == Done => ~bad /\ cur = AsBuiltResult(src, tgt)
+AsBuiltOK == Done => ~bad /\ cur = (IF "Dev_C14_DataIgnored" \in Devs THEN AsBuiltResult(src, tgt) ELSE AsBuiltResultB(src, tgt))
 \* the as-built rule breaks the property exactly on the kind changes (and the model shows it)
 AsBuiltBreaks == Done => (cur = tgt)
 =============================================================================
